@@ -114,6 +114,48 @@ def gene_fn(n, strands, coding, flags, two_exons):
     return fn
 
 
+def subgene_fn():
+    """a gene and the sub-gene a guid query leaves of it (same gene guid, same span, fewer isoforms), asked for their merged transcript / CDS / primary transcript
+    / is_coding in either order: each answers for ITS OWN children. Realised leg."""
+
+    def fn(a, la, g, mid, keep, order, code, gtype):
+        a, la, g, mid, keep, order, code, gtype = concretize(a, la, g, mid, keep, order, code, gtype)
+        with untraced():
+            # isoform A: two exons; isoform B: the same two exons plus a middle exon inside A's intron (same span)
+            e1, e3 = (a, a + la), (a + la + g + mid + g, a + la + g + mid + g + la)
+            e2 = (a + la + g, a + la + g + mid)
+            cds_a = ([e1[0] + 1], [e1[1]]) if code in (1, 3) else (None, None)
+            cds_b = ([e2[0]], [e2[1]]) if code in (2, 3) else (None, None)
+            fr = lambda c: [CDSFrame.ZERO] if c[0] else None  # noqa: E731
+            ta = TranscriptInterval([e1[0], e3[0]], [e1[1], e3[1]], PLUS, cds_a[0], cds_a[1], fr(cds_a), guid=801, transcript_id="A")
+            tb = TranscriptInterval([e1[0], e2[0], e3[0]], [e1[1], e2[1], e3[1]], PLUS, cds_b[0], cds_b[1], fr(cds_b), guid=802, transcript_id="B")
+            gene = GeneInterval([ta, tb], guid=900, gene_id="g", gene_type=[None, Biotype.protein_coding, Biotype.ncRNA][gtype])
+            sub = gene.query_by_guids([801 if keep == 0 else 802])
+            kept = ta if keep == 0 else tb
+
+            def answers(gobj):
+                out = [[(b.start, b.end) for b in gobj.get_merged_transcript().chromosome_location.blocks], gobj.is_coding, gobj.get_primary_transcript().guid]
+                try:
+                    out.append([(b.start, b.end) for b in gobj.get_merged_cds().chromosome_location.blocks])
+                except NoncodingTranscriptError:
+                    out.append("noncoding")
+                return out
+
+            first, second = (gene, sub) if order == 0 else (sub, gene)
+            r1, r2 = answers(first), answers(second)
+            rg, rs = (r1, r2) if order == 0 else (r2, r1)
+            exp_g = [[e1, e2, e3], code != 0, None, None]
+            cds_blocks = ([(cds_a[0][0], cds_a[1][0])] if cds_a[0] else []) + ([(cds_b[0][0], cds_b[1][0])] if cds_b[0] else [])
+            ok = rg[0] == exp_g[0] and rg[1] == (code != 0) and rg[3] == (sorted(cds_blocks) if cds_blocks else "noncoding")
+            kept_blocks = [(b.start, b.end) for b in kept.chromosome_location.blocks]
+            kept_cds = [(b.start, b.end) for b in kept.cds.chromosome_location.blocks] if kept.is_coding else "noncoding"
+            ok = ok and rs[0] == kept_blocks and rs[1] == kept.is_coding and rs[2] == kept.guid and rs[3] == kept_cds
+            ok = ok and sub.guid == gene.guid and len(list(sub.iter_children())) == 1 and len(list(gene.iter_children())) == 2
+            return ok
+
+    return fn
+
+
 def gene_pre(n, coding, two_exons):
     def pre(**kw):
         for i in range(n):
@@ -200,8 +242,13 @@ def acoll_fn(kinds):
         got = list(coll.iter_children())
         if len(got) != len(kinds):
             return False
-        conds = [coll.start == MIN([m[1] for m in members]), coll.end == MAX([m[2] for m in members]),
-                 len(coll) == len(genes) + len(fcs), NOT(coll.is_empty)]
+        if not genes and not fcs:
+            # bounds are inferred from the children only when the collection is not empty in the sense of len() (genes + feature collections)
+            bounds = [coll.start is None, coll.end is None]
+        else:
+            bounds = [coll.start == MIN([m[1] for m in members]), coll.end == MAX([m[2] for m in members])]
+        conds = bounds + [
+                 len(coll) == len(genes) + len(fcs), coll.is_empty == (len(genes) + len(fcs) == 0)]  # is_empty is defined through len(): variant collections do not count
         for a, b in zip(got, got[1:]):
             conds.append(a.start <= b.start)
         # stable: equal starts keep the constructor's chain order genes, feature collections, variant collections
@@ -321,6 +368,13 @@ def obligations(tier):
                        cost=30 * len(kinds),
                        desc="annotation collection iterates its members ordered by start (stable), bounds = (min start, max end) of the children, len counts genes+feature collections",
                        bounds="%d members (%s), unbounded symbolic coordinates" % (len(kinds), ",".join(kinds)), examples=[ex, dict(ex, s1=ex["s0"])]))
+    out.append(Obl("gene_and_its_guid_subgene", subgene_fn(), dict(a=int, la=int, g=int, mid=int, keep=int, order=int, code=int, gtype=int),
+                   lambda a, la, g, mid, keep, order, code, gtype: 100 <= a and a <= 101 and 3 <= la and la <= 4 and 2 <= g and g <= 3 and 2 <= mid and mid <= 3 and 0 <= keep and
+                   keep <= 1 and 0 <= order and order <= 1 and 0 <= code and code <= 3 and 0 <= gtype and gtype <= 2, budget=600, cost=40,
+                   desc="a 2-isoform gene (isoform B = isoform A plus an exon in A's intron) and the sub-gene that query_by_guids leaves of it (same guid and span), asked in "
+                        "either order: merged transcript / merged CDS / is_coding / primary transcript of each are those of ITS OWN isoforms, whatever gene_type says",
+                   bounds="exon 3..4 nt, introns 2..3, middle exon 2..3, which isoform is kept x order x 4 coding patterns x 3 gene types (realised)",
+                   examples=[dict(a=100, la=3, g=2, mid=2, keep=0, order=0, code=2, gtype=1), dict(a=101, la=4, g=3, mid=3, keep=1, order=1, code=1, gtype=0)]))
     out.append(Obl("acoll_empty", empty_collection_fn(), {"x": int}, lambda x: x == 0, budget=30, cost=1,
                    desc="an empty annotation collection is empty, has length 0 and an empty location", bounds="-", examples=[dict(x=0)]))
     out.append(Obl("primary_sequences", primary_sequences_fn(), dict(s0=int, l0=int, c0=int, s1=int, l1=int, c1=int),
